@@ -1060,11 +1060,10 @@ class Driver:
             stats.cls("aborted:out_of_sync")
             return "abort"
         if "C16" in self.focus and raised is None:
-            # every c16_every-th accepted step, and after about half of the renames / deletes /
-            # mux edits at once (the other half is checked one or more edits later, so that
-            # sequences of edits without any analysis in between are explored too)
-            soon = tag and (len(self.ops) * 7 + self.steps_ok) % 2 == 0
-            if self.steps_ok % self.c16_every == 0 or soon:
+            # whether the reports are run after this step is part of the generated history
+            # (op["check_after"]), so that stretches of edits without any analysis in between
+            # are explored as well as an analysis after every edit; finish() always checks
+            if op.get("check_after", self.steps_ok % self.c16_every == 0):
                 self.check_c16()
                 self.unchecked = 0
             else:
@@ -1177,6 +1176,9 @@ def make_machine(focus, tier, c16_every=1):
     from hypothesis.stateful import (RuleBasedStateMachine, initialize, invariant,
                                      precondition, rule)
 
+    # probability (in tenths) that the reports are run after an accepted step
+    check_weight = 4 if c16_every > 1 else 6
+
     def factory(stats, record):
         class EditMachine(RuleBasedStateMachine):
             def __init__(self):
@@ -1216,7 +1218,11 @@ def make_machine(focus, tier, c16_every=1):
                 op = draw_op(data.draw, self.d.model, self.counter)
                 try:
                     r = "ok"
-                    for one in (op if isinstance(op, list) else [op]):
+                    seq = op if isinstance(op, list) else [op]
+                    for j, one in enumerate(seq):
+                        # analysis after this step? (never inside a move pair)
+                        one["check_after"] = (j == len(seq) - 1) and (
+                            data.draw(st.integers(0, 9)) < check_weight)
                         r = self.d.step(one)
                         if r == "abort":
                             break
